@@ -1,4 +1,4 @@
-import Fv.Lemmas.SpmcBSafe
+import Fv.Lemmas.SpmcBWake
 /-!
 # SpmcB — step-level theorems about the broadcast SPMC channel (feeds C07; spmc parts of C03/C04/C05/C09)
 
@@ -351,6 +351,133 @@ theorem sender_gone_is_final {cap : Nat} {s s' : State} (hc : 0 < cap) (h : Reac
       case xFlag d => cases hst; unfold stepXFlag; split <;> exact ⟨hp, rfl⟩
       case qDrop => cases hst; unfold stepQDrop; split <;> exact ⟨hp, rfl⟩
       all_goals (cases hst; exact ⟨hp, rfl⟩)
+
+/-! ## Blocked threads are always woken (C05, safety form) -/
+
+/-- the ring is genuinely full for some published receiver -/
+def StillFull (s : State) : Prop := ∃ r, r ∈ s.pub ∧ s.cur r + s.cap ≤ s.head
+
+/-- **Producer: no lost wake-up (three-state park flag).** If the producer is parked in `send` /
+`park_until_not_full` without a token, then
+
+* the flag is PARKED and either the ring is still genuinely full for a published cursor, or some
+  consumer that advanced its cursor / published its unregistration has not yet tested the flag
+  (it will find PARKED and win or lose the CAS to another consumer);
+* or the flag is CONSUMING and the consumer that took the thread handle is about to store IDLE and unpark;
+* or the flag is IDLE and a consumer is at its `unpark(producer)` call.
+
+Closing or dropping a receiver is covered: from the publication of the removal until its
+`wake_producer` has tested the flag the dropping thread is one of the "consumers" of the first case
+(see `unregister_owes_wake`). -/
+theorem producer_no_lost_wakeup {cap : Nat} {s : State} (hc : 0 < cap) (h : Reach cap s) (hnt : s.taint = false)
+    {p : Nat} {x : SCtx} (hp : s.pc p = .snd (.pPark x)) (htok : s.token p = false) :
+    (s.flag = 1 ∧ (StillFull s ∨ ∃ u r q, s.pc u = .rcv r q ∧ preCas q = true)) ∨
+    (s.flag = 2 ∧ ∃ u r k, s.pc u = .rcv r (.wpIdle k (some p))) ∨
+    (s.flag = 0 ∧ ∃ u r k, s.pc u = .rcv r (.wpUnpark k p)) := by
+  have ha := invA_reach h
+  have hw := wake_reach hc h hnt
+  have hf2 := ha.flag2
+  have h012 : s.flag = 0 ∨ s.flag = 1 ∨ s.flag = 2 := by omega
+  rcases h012 with h0 | h1 | h2
+  · right; right
+    refine ⟨h0, ?_⟩
+    rcases hw.w2.handed p _ hp rfl h0 with ht | ⟨u, hu⟩
+    · rw [htok] at ht; cases ht
+    · have := (hw.w1.upk_iff u p).1 hu
+      cases hq : s.pc u with
+      | rcv r q =>
+        rw [hq] at this
+        cases q <;> simp only [upkPC] at this <;> (first | cases this | skip)
+        rename_i k
+        exact ⟨u, r, k, hq⟩
+      | idle => rw [hq] at this; cases this
+      | ret res => rw [hq] at this; cases this
+      | snd q => rw [hq] at this; cases this
+  · left
+    refine ⟨h1, ?_⟩
+    have := hw.w2.wit p _ hp h1
+    simp only [witPC] at this
+    rcases this with ⟨a, b⟩ | hne
+    · exact Or.inl ⟨s.argm, a, b⟩
+    · right
+      cases hwq : s.wq with
+      | nil => exact absurd hwq hne
+      | cons u rest =>
+        have hu : u ∈ s.wq := by rw [hwq]; simp
+        have := (hw.w1.wq_iff u).1 hu
+        cases hq : s.pc u with
+        | rcv r q => rw [hq] at this; exact ⟨u, r, q, hq, this⟩
+        | idle => rw [hq] at this; cases this
+        | ret res => rw [hq] at this; cases this
+        | snd q => rw [hq] at this; cases this
+  · right; left
+    refine ⟨h2, ?_⟩
+    have hne := hw.w1.flag_csm.1 h2
+    cases hcs : s.csm with
+    | none => exact absurd hcs hne
+    | some u =>
+      have := (hw.w1.csm_iff u).1 hcs
+      cases hq : s.pc u with
+      | rcv r q =>
+        rw [hq] at this
+        cases q <;> simp only [csmPC] at this <;> (first | (exfalso; cases this; done) | skip)
+        rename_i k th
+        have e := hw.w2.idle_th u r k th p _ hq hp
+        subst e; exact ⟨u, r, k, hq⟩
+      | idle => rw [hq] at this; cases this
+      | ret res => rw [hq] at this; cases this
+      | snd q => rw [hq] at this; cases this
+
+/-- **Dropping / closing a receiver releases the backpressure it caused and owes the producer a
+wake**: from the step that publishes the removal of its cursor, the cursor is out of the published
+list (so out of every later minimum) and the thread counts as a consumer that still has to test the
+park flag. -/
+theorem unregister_owes_wake {cap : Nat} {s : State} (hc : 0 < cap) (h : Reach cap s) (hnt : s.taint = false)
+    {u r : Nat} {o : LOp} {l : Nat} (hu : s.pc u = .rcv r (.mMod .unreg (.wWait o l))) :
+    r ∉ s.pub ∧ u ∈ s.wq ∧ preCas (.mMod .unreg (.wWait o l)) = true := by
+  have hs := safe_reach hc h hnt
+  have hw := wake_reach hc h hnt
+  have hl := lri_reach h
+  have hst := hl.stage u
+  simp only [hu, lrpc, lrpcR, LeftRightB.stageOK] at hst
+  obtain ⟨hlv, _, hd⟩ := hst
+  have hf := hs.rf u r _ hu
+  simp only [rFact, opOf] at hf
+  have := hf.2.2.2.1 o rfl; subst this
+  refine ⟨?_, (hw.w1.wq_iff u).2 (by rw [hu]; rfl), rfl⟩
+  show r ∉ s.lr.data s.lr.live
+  rw [hlv, hd]; simp [apL]
+
+/-- **Receivers: no lost wake-up (slot waker lists).** If a blocking receive is parked without a token
+while its next item has been published (or the sender is gone), then the sender-side thread either
+already holds this thread's waker in its to-wake list, or is still before the drain of the slot
+list in which the waker sits (it publishes `head` / `producer_dropped` first, then drains). -/
+theorem receiver_no_lost_wakeup {cap : Nat} {s : State} (hc : 0 < cap) (h : Reach cap s) (hnt : s.taint = false)
+    {t r : Nat} {x : RCtx} (hp : s.pc t = .rcv r (.kPark x)) (htok : s.token t = false)
+    (hen : s.cur r < s.sent.length ∨ s.pdropped = true) :
+    ∃ p q, s.pc p = .snd q ∧
+      (t ∈ accOf q ∨ (t ∈ s.wk (s.cur r % s.cap) ∧ (willDrain q (s.cur r) ∨ willDrainC q (s.cur r % s.cap)))) := by
+  have hw := wake_reach hc h hnt
+  obtain ⟨_, h2, h3⟩ := hw.w3.all t r _ hp
+  have owed : OwedL s t → ∃ p q, s.pc p = .snd q ∧ t ∈ accOf q := by
+    rintro (a | ⟨p, q, hpq, hm⟩)
+    · rw [htok] at a; cases a
+    · exact ⟨p, q, hpq, hm⟩
+  rcases hen with hlt | hpd
+  · rcases h2 2 rfl (by omega) hlt with a | ⟨a, p, q, hpq, hd⟩
+    · obtain ⟨p, q, hpq, hm⟩ := owed a; exact ⟨p, q, hpq, Or.inl hm⟩
+    · exact ⟨p, q, hpq, Or.inr ⟨a, Or.inl hd⟩⟩
+  · rcases h3 rfl hpd with a | ⟨a, p, q, hpq, hd⟩
+    · obtain ⟨p, q, hpq, hm⟩ := owed a; exact ⟨p, q, hpq, Or.inl hm⟩
+    · exact ⟨p, q, hpq, Or.inr ⟨a, Or.inr hd⟩⟩
+
+/-- The sender-side thread named by the two theorems above is never stuck: the control states that
+hold wakers or owe a drain are straight-line (`lock` of an uncontended-or-eventually-released slot
+mutex, `unpark`, stores) — in particular they are not park points. -/
+theorem waker_holder_not_parked {q : SPC} {t c j : Nat} (h : t ∈ accOf q ∨ willDrain q c ∨ willDrainC q j) :
+    ∀ x, q ≠ .pPark x := by
+  intro x e; subst e
+  rcases h with h | h | h <;> simp [accOf, willDrain, willDrainC] at h
 
 /-! ## Witnesses: what goes wrong in the two tainted uses (proved by evaluation of the model) -/
 
